@@ -4,7 +4,7 @@ demonstration passes without it and fails with it, and the repository's passing 
 as /verif/seeded/<name>/ (patch.diff, demo.py, meta.json).  usage: vetmut.py <prop> <k> [...]"""
 import json, os, shutil, subprocess, sys
 
-OUT = '/tmp/wt/out'
+OUT = __import__('os').environ.get('VET_OUT', '/tmp/wt/out')
 VET = '/tmp/vet'
 BASE = '/tmp/vet/base_pass.txt'
 
